@@ -9,12 +9,19 @@ Emboss/Spec/Fmt.lean; lemmas: Emboss/Lemmas/Fmt*.lean.
 The kernel evaluations over the regenerated tables are in Lemmas/FmtTableOK.lean,
 FmtNormalOK.lean, FmtSeparableOK.lean (re-elaborated only when a generated file changes).
 
+Round 3 adds the blank-line normal form (`C11_format_factors_blank`, `C11_idempotent_partial`;
+Spec/FmtEquivB.lean, Lemmas/FmtBlank.lean) and the composition of the formatter model with
+the tokenizer model of C10 (`C11_retokenize_partial`, `C11_retokenize_checked`,
+`C11_retokenize_module_partial`, `C11_columnize_retokenizes_partial`,
+`C11_row_retokenizes_partial`; Spec/FmtRetok.lean, Lemmas/FmtRetok*.lean).
+
 What is *not* a theorem here (decided by the correspondence + oracle on the real code,
-and labelled so in the manifest): fmt(fmt t) = fmt t in full (`C11_format_fixed_point_partial`
-needs the parse tree of the output to be equivalent to the input tree), and that the
-formatted text re-tokenizes to the same tokens (needs tokenizer ∘ parser ∘ render as one
-object; `C11_tokens_preserved` + `C11_render_separable` are its character-level and
-token-class-level parts).
+and labelled so in the manifest): fmt(fmt t) = fmt t in full (`C11_idempotent_partial`
+needs the parse tree of the output to be the input tree up to layout texts, trailing
+blanks and blank lines at the ends of comment blocks: evaluated per case by the harness),
+and that the leaves the formatted text tokenizes to (`C11_retokenize_checked`: a theorem
+instance per case) are the content leaves of the tree (`C11_tokens_preserved` +
+`C11_render_separable` are its character-level and token-class-level parts).
 -/
 import Emboss.Lemmas.FmtSanity
 import Emboss.Lemmas.FmtTableOK
@@ -22,6 +29,10 @@ import Emboss.Lemmas.FmtNormalOK
 import Emboss.Lemmas.FmtSeparableOK
 import Emboss.Lemmas.FmtIdem
 import Emboss.Lemmas.FmtCommentOK
+import Emboss.Lemmas.FmtBlank
+import Emboss.Lemmas.FmtRetokCells
+import Emboss.Lemmas.FmtRetokEx
+import Emboss.Lemmas.FmtRetokCols
 namespace Emboss.Fmt
 open Emboss.Generated.FmtTable
 
@@ -267,14 +278,243 @@ def exTree2 : Tree :=
     .node (ix "attribute-line*" []) [],
     .node (ix "type-definition*" []) []]
 
-example : equivC exTree exTree2 = true ∧ exTree ≠ exTree2 := by
-  constructor
-  · decide +kernel
-  · intro h; simp [exTree, exTree2] at h
+example : exTree ≠ exTree2 := by
+  intro h; simp [exTree, exTree2] at h
+
+theorem exTree_wf : wf formatters exTree = true := by decide +kernel
+theorem exTree_root : rootSym formatters exTree = startSymbol := by decide +kernel
+theorem exTree_fmt : formatTree 3 exTree = some (.str "-- hi\n# c\n".toList) := by decide +kernel
+theorem exTree_equivC : equivC exTree exTree2 = true := by decide +kernel
 
 example : formatTree 3 exTree2 = some (.str "-- hi\n# c\n".toList) :=
-  C11_format_fixed_point_partial 3 exTree exTree2 _ (by decide +kernel) (by decide +kernel)
-    (by decide +kernel) (by decide +kernel)
+  C11_format_fixed_point_partial 3 exTree exTree2 _ exTree_wf exTree_root exTree_fmt exTree_equivC
+
+/-! ## Blank lines (round 3) -/
+
+/-- **Formatting factors through the blank-line normal form**: two parse trees that differ
+only in the *blank lines at the two ends of a block of comment lines* — under an `eol` node
+(`_eol`) or at the head of the module (`_module`); `EquivB`, Spec/FmtEquivB.lean — are
+formatted to the same text (indeed every subtree folds to the same value), for every
+production and indent width; no well-formedness is needed.  So the blank-line structure of
+the output is a function of the remaining structure only: source blank lines other than
+those between two comment lines of one block never reach the output, and every blank line
+the formatter emits (section breaks, separators between types / fields / values, the blank
+line at a dedent) is computed from the rows.  Blank lines *between* two comment lines of a
+block are kept as they are (they are not blank-line policy; `equivC`/`EquivB` keep them). -/
+theorem C11_format_factors_blank (iw : Nat) (t t' : Tree) (h : EquivB formatters t t') :
+    formatTree iw t' = formatTree iw t :=
+  fold_equivB formatters iw h
+
+/-- **Idempotence, partial**: if `t` is formatted to `out`, then every tree `t2` that differs
+from `t` only by (`equivC`) the texts of layout tokens and trailing blanks of
+documentation / comments and (`EquivB`) blank lines at the ends of comment blocks is
+formatted to `out` as well.  With `t2` := the parse tree of `out` this is
+`fmt (fmt t) = fmt t`.
+
+Full statement wanted: `∀ t, fmt (parse (fmt t)) = fmt t`.  The remaining hypothesis —
+"the parse tree of `out` is `t` up to `equivC` and `EquivB`" — says: (a) `out` tokenizes to
+the content tokens of `t`, line by line (`C11_retokenize_partial` below gives the
+tokenizer-side half of this for rendered rows); (b) every blank line of `out` that is not
+between two comment lines of a block stands directly after an end of line that the grammar
+attaches to an `eol` (or at the head of the module), which is where the unique parse of
+the token sequence (C08: the grammar is LR(1), hence unambiguous) must put it.  The harness
+evaluates the hypothesis on every case (`idempotent_theorem_applies`: the parse trees of
+source and output compared node by node, blank lines at the ends of comment blocks
+ignored); where it holds idempotence is a consequence of this theorem and the
+byte-identical correspondence. -/
+theorem C11_idempotent_partial (iw : Nat) (t t1 t2 : Tree) (out : Str)
+    (hw : wf formatters t = true) (hroot : rootSym formatters t = startSymbol)
+    (hfmt : formatTree iw t = some (.str out))
+    (hc : equivC t t1 = true) (hb : EquivB formatters t1 t2) :
+    formatTree iw t2 = some (.str out) := by
+  rw [C11_format_factors_blank iw t1 t2 hb]
+  exact C11_format_fixed_point_partial iw t t1 out hw hroot hfmt hc
+
+/-! Non-vacuity: `exTree3` is `exTree2` with a blank line in front (what a source with a
+leading blank line parses to); it is `EquivB` to `exTree2`, not `equivC` to it, and the
+theorem gives its formatted text from that of `exTree`. -/
+
+def exTree3 : Tree :=
+  .node (ix "module" ["comment-line*", "doc-line*", "import-line*", "attribute-line*", "type-definition*"]) [
+    .node (ix "comment-line*" ["comment-line", "comment-line*"]) [
+      .node (ix "comment-line" ["Comment?", "\"\\n\""]) [
+        .node (ix "Comment?" []) [], .tok "\"\\n\"" "\n".toList],
+      .node (ix "comment-line*" []) []],
+    .node (ix "doc-line*" ["doc-line", "doc-line*"]) [
+      .node (ix "doc-line" ["doc", "Comment?", "eol"]) [
+        .node (ix "doc" ["Documentation"]) [.tok "Documentation" "-- hi".toList],
+        .node (ix "Comment?" []) [],
+        .node (ix "eol" ["\"\\n\"", "comment-line*"]) [
+          .tok "\"\\n\"" "\r\n".toList,
+          .node (ix "comment-line*" ["comment-line", "comment-line*"]) [
+            .node (ix "comment-line" ["Comment?", "\"\\n\""]) [
+              .node (ix "Comment?" ["Comment"]) [.tok "Comment" "# c".toList],
+              .tok "\"\\n\"" "\n".toList],
+            .node (ix "comment-line*" []) []]]],
+      .node (ix "doc-line*" []) []],
+    .node (ix "import-line*" []) [],
+    .node (ix "attribute-line*" []) [],
+    .node (ix "type-definition*" []) []]
+
+theorem exTree23 : EquivB formatters exTree2 exTree3 := by
+  have hnil : handlerAt formatters (ix "comment-line*" []) = some .emptyList := by decide +kernel
+  have hcons : handlerAt formatters (ix "comment-line*" ["comment-line", "comment-line*"]) =
+      some .concatenateLists := by decide +kernel
+  refine .module _ _ _ _ _ (by decide +kernel) ⟨_, .trail (.atNil hnil (.nil hnil)), ?_⟩ rfl
+    (fun i _ _ => .refl _)
+  exact .lead hcons (by decide +kernel) (.trail (.atNil hnil (.nil hnil)))
+
+example : equivC exTree2 exTree3 = false := by decide +kernel
+
+example : formatTree 3 exTree3 = some (.str "-- hi\n# c\n".toList) :=
+  C11_idempotent_partial 3 exTree exTree2 exTree3 _ exTree_wf exTree_root exTree_fmt exTree_equivC exTree23
+
+/-! ## Re-tokenization of the output (round 3) -/
+
+section Retokenize
+open Emboss.FmtTok Emboss.Tok Emboss.Generated
+
+/-- **The formatter's renderer composed with the tokenizer (C10's model), partial.**
+`_module` renders the rows `moduleRows c d i a ty` (comment, documentation, import,
+attribute rows and the rows of the type definitions, interspersed with the section breaks,
+re-indented comments and dedent blanks of the global passes).  If every one of these rows
+has fewer than two columns (what `_columnize` leaves) and its content — the columns
+without trailing blanks — is tokenized by `_tokenize_line` to the leaves (symbol, text)
+`x.2` (`LineToks`), then for every indent width ≥ 1 **`tokenize` accepts the text that
+`_module` returns and yields exactly `E`**: per row its leaves and one end-of-line token;
+rows without tokens or with comments only take no part in indentation; a row deeper than
+the innermost open level opens one (`Indent` carrying `indent_width × difference`
+blanks), a shallower one closes levels down to the one it sits on (`Dedent`s), and the end
+of the text closes every open level — Indent / Dedent / end-of-line tokens are a function
+of the block structure (`expectLeaves`) alone.  `expectLeaves = some E` excludes a dedent
+to a level that was never opened (the tokenizer's "Bad indentation").
+
+Full statement wanted: `tokenize (fmt t)` = the non-layout leaves of `t`, line by line.
+Missing (decided by the oracle on the real code, which re-tokenizes every output): that the
+rows the fold produces for a tree satisfy the hypothesis with the tree's leaves — the
+cells' texts tokenize to the tokens they were built from.  `C11_row_retokenizes_partial`
+below is the blank-separated half of that; the half for texts printed with nothing in
+between is `C11_render_separable` (per pair of terminal classes, audited list, sampled on
+the real tokenizer), which has no tokenizer-model counterpart yet. -/
+theorem C11_retokenize_partial (iw : Nat) (hiw : 0 < iw) (c d i a : List Row) (ty : List (List Row))
+    (rows : List (Row × List Leaf)) (hrows : rows.map Prod.fst = moduleRows c d i a ty)
+    (hr : ∀ x ∈ rows, x.1.columns.length < 2 ∧ LineToks (rowText x.1) x.2) (E : List Leaf)
+    (hE : expectLeaves iw 0 [] (rows.map (fun x => (x.1.indent, x.2))) = some E) :
+    ∃ text toks, Handler.run iw .module [.rows c, .rows d, .rows i, .rows a, .sections ty] =
+        some (.str text) ∧
+      tokenize tokTable.pats text = .ok toks ∧ toks.map leafOf = E := by
+  obtain ⟨text, toks, h1, h2, h3⟩ := tokenize_renderRows iw hiw rows hr E hE
+  refine ⟨text, toks, ?_, h2, h3⟩
+  rw [hModule_eq, ← hrows, h1]; rfl
+
+/-- **Re-tokenization, as a certificate evaluated per parse tree.**  `retokTree iw t`
+(Spec/FmtRetok.lean; evaluated by the compiled driver, op `RETOK`, on every case of the
+check) folds the children of the module node, builds the rows `_module` renders, and
+*evaluates* the hypotheses of `C11_retokenize_partial` row by row with the tokenizer model
+(fewer than two columns; content without leading / trailing blank and line terminator;
+`_tokenize_line` accepts it), then computes `expectLeaves`.  **Whenever it answers
+`some E`, the model formats `t` to a text that the tokenizer model accepts with exactly
+the leaves `E`** — the leaves of the rendered rows in order, one end-of-line token per row,
+Indent / Dedent by the rows' levels.  The harness compares `E` with what the real tokenizer
+makes of the real formatter's output (`retokenize_theorem_applies`).  What remains with the
+oracle alone: that these leaves are the content leaves of `t`. -/
+theorem C11_retokenize_checked (iw : Nat) (hiw : 0 < iw) (t : Tree) (E : List Leaf)
+    (h : retokTree iw t = some E) :
+    ∃ text toks, formatTree iw t = some (.str text) ∧
+      tokenize tokTable.pats text = .ok toks ∧ toks.map leafOf = E :=
+  retokTree_sound iw hiw t E h
+
+/-! Non-vacuity (kernel-evaluated): `exTree` ("-- hi  " / "# c \t") is accepted, with the
+leaves of `-- hi` / `# c`. -/
+theorem exTree_retok : retokTree 3 exTree =
+    some [("Documentation", "-- hi".toList), nlLeaf, ("Comment", "# c".toList), nlLeaf] := by
+  decide +kernel
+
+example : ∃ text toks, formatTree 3 exTree = some (.str text) ∧
+    tokenize tokTable.pats text = .ok toks ∧
+    toks.map leafOf = [("Documentation", "-- hi".toList), nlLeaf, ("Comment", "# c".toList), nlLeaf] :=
+  C11_retokenize_checked 3 (by decide) exTree _ exTree_retok
+
+/-- **…with the hypothesis moved in front of the global passes**: `_intersperse`,
+`_indent_blanks_and_comments`, `_add_blank_rows_on_dedent` and
+`_strip_empty_leading_trailing_comment_lines` only add rows without columns and change
+indentation (`moduleRows_columns`), so it is enough that the rows *the module's parts
+deliver* (comment, documentation, import, attribute rows, rows of the type definitions)
+have fewer than two columns and tokenize to the leaves `lv` assigns to their columns. -/
+theorem C11_retokenize_module_partial (iw : Nat) (hiw : 0 < iw) (c d i a : List Row) (ty : List (List Row))
+    (lv : List Str → List Leaf) (hnil : lv [] = [])
+    (hin : ∀ r ∈ c ++ d ++ i ++ a ++ ty.flatten, r.columns.length < 2 ∧ LineToks (rowText r) (lv r.columns))
+    (E : List Leaf)
+    (hE : expectLeaves iw 0 [] ((moduleRows c d i a ty).map (fun r => (r.indent, lv r.columns))) = some E) :
+    ∃ text toks, Handler.run iw .module [.rows c, .rows d, .rows i, .rows a, .sections ty] =
+        some (.str text) ∧
+      tokenize tokTable.pats text = .ok toks ∧ toks.map leafOf = E :=
+  tokenize_moduleRows iw hiw c d i a ty lv hnil hin E hE
+
+/-- **The header row `_columnize` builds re-tokenizes to its cells' tokens, partial.**  `b`
+one of the blocks handed to `_columnize(blocks, indent_width, indent_columns)`; every cell
+of its header is empty (without leaves) or tokenizes to its leaves; a comment /
+documentation token only in the last non-empty cell; the first cell not empty.  Then the
+block is rendered as `prefix ++ [hdr] ++ body` where `hdr` has a single column, the header's
+name and indentation, and its content tokenizes to the concatenation of the cells' leaves:
+the column widths (`colWidth_ge`: a column is at least as wide as each of its cells, in
+both `indent_columns` modes) leave at least one blank after every non-empty cell, and the
+`ljust` loop is `cellsText`.  Still missing for the full clause: the cells' own
+tokenizability from the handlers that build them (parts printed with nothing in between). -/
+theorem C11_columnize_retokenizes_partial (blocks : List Block) (iw ic : Nat) (b : Block)
+    (hb : b ∈ blocks) (Ls : List (List Leaf))
+    (hcell : ∀ x ∈ colCells blocks iw ic b.header 0 b.header.columns Ls,
+      (x.1 = [] ∧ x.2.2 = []) ∨ (x.1 ≠ [] ∧ LineToks x.1 x.2.2))
+    (hopen : OpenLast (colCells blocks iw ic b.header 0 b.header.columns Ls))
+    (hfirst : ∃ c rest, b.header.columns = c :: rest ∧ c ≠ []) :
+    ∃ hdr : Row, columnizeBlock blocks iw ic b = b.pre ++ [hdr] ++ b.body ∧
+      hdr.columns.length < 2 ∧ hdr.indent = b.header.indent ∧ hdr.name = b.header.name ∧
+      LineToks (rowText hdr) (cellsLeaves (colCells blocks iw ic b.header 0 b.header.columns Ls)) :=
+  columnize_header_lineToks blocks iw ic b hb Ls hcell hopen hfirst
+
+/-! Non-vacuity (test on literals): a field header `0` / `[+1]` / `UInt` / `x` in a block
+list of one; the cells tokenize (kernel-evaluated tokenizer model), so the columnized row
+`0  [+1]  UInt  x` does. -/
+example : ∃ hdr : Row, columnizeBlock [exBlock] 2 2 exBlock = [] ++ [hdr] ++ [] ∧
+    hdr.columns.length < 2 ∧ hdr.indent = 0 ∧ hdr.name = .field ∧
+    LineToks (rowText hdr) (cellsLeaves (colCells [exBlock] 2 2 exBlock.header 0 exBlock.header.columns exCellLeaves)) :=
+  C11_columnize_retokenizes_partial [exBlock] 2 2 exBlock (by simp) exCellLeaves exBlock_cells
+    exBlock_open ⟨_, _, rfl, by decide⟩
+
+/-- **One rendered row re-tokenizes to its cells' tokens, partial.**
+(1) Two texts that tokenize to `La` and `Lb`, the first without a comment / documentation
+token, put side by side with `n + 1` blanks between them (`_concatenate_with_spaces`,
+`"  " + comment`, a padded column followed by the next) tokenize to `La ++ Lb`.
+(2) Cells laid out as `_columnize` does — every cell followed by blanks (`ljust`), at least
+one after a non-empty cell, the whole right-stripped; a comment / documentation token only
+in the last non-empty cell — tokenize to the concatenation of the cells' leaves, after `k`
+leading blanks that only occur when the first cell is empty.
+(C10: `C10_concat_with_blank`, `C10_leading_blanks`.)  Missing for the full statement: that
+`_columnize`'s `ljust` widths do leave a blank after every non-empty cell (`colWidth ≥`
+the cell's length), and cells whose parts are printed with nothing in between. -/
+theorem C11_row_retokenizes_partial :
+    (∀ (a b : Str) (La Lb : List Leaf) (n : Nat), LineToks a La → LineToks b Lb → a ≠ [] → b ≠ [] →
+      (∀ l ∈ La, ¬ OpenEnded l.1) → LineToks (a ++ spaces (n + 1) ++ b) (La ++ Lb)) ∧
+    (∀ cells : List (Str × Nat × List Leaf), (∀ x ∈ cells, CellOK x) → OpenLast cells →
+      (rstrip (cellsText cells) = [] ∧ cellsLeaves cells = []) ∨
+      ∃ k s, rstrip (cellsText cells) = spaces k ++ s ∧ s ≠ [] ∧ LineToks s (cellsLeaves cells) ∧
+        (∀ x rest, cells = x :: rest → x.1 ≠ [] → k = 0)) :=
+  ⟨fun _ _ _ _ n ha hb hane hbne ho => LineToks.join n ha hb hane hbne ho, cells_lineToks⟩
+
+/-! Non-vacuity (tests on literals, kernel-evaluated in Lemmas/FmtRetokEx.lean): the rows of
+`struct Foo:` / `  0  [+1]  UInt  x` (a type header and a columnized field at level 1). -/
+
+example : ∃ toks, tokenize tokTable.pats "struct Foo:\n   0  [+1]  UInt  x\n".toList = .ok toks ∧
+    toks.map leafOf = exLeaves := by
+  obtain ⟨text, toks, h1, h2, h3⟩ := C11_retokenize_partial 3 (by decide) [] [] [] []
+    [exRows.map Prod.fst] exRows exRows_module exRows_ok exLeaves exRows_expect
+  have : text = "struct Foo:\n   0  [+1]  UInt  x\n".toList := by
+    rw [exRows_text] at h1
+    cases h1; rfl
+  subst this
+  exact ⟨toks, h2, h3⟩
+
+end Retokenize
 
 /-- **The global row passes are projections** (a necessary ingredient of idempotence that
 needs no tokenizer): stripping leading/trailing empty comment rows, re-indenting blank and
